@@ -44,7 +44,10 @@ ConsultedKeys(R, table) == DOMAIN table \cap ChoiceParents(R)
 
 RunErrors(R, table, QG, RG, minm) ==
     (IF Root \in ChoiceParents(R) /\ Own(table, Root) \cap QG = {} THEN {"root_unusable"} ELSE {})
-    \cup (IF \E p \in ChoiceParents(R) : GenesAt(R, table, QG, minm, p) = {} THEN {"no_usable_markers"} ELSE {})
+    \* with a minimum of 0 nothing is "fewer than the minimum": a non-root parent may then be left without
+    \* genes (the statement asks for an error only at the root)
+    \cup (IF minm >= 1 /\ \E p \in ChoiceParents(R) : GenesAt(R, table, QG, minm, p) = {}
+          THEN {"no_usable_markers"} ELSE {})
     \cup (IF (UNION {table[p] : p \in DOMAIN table}) \cap QG = {} THEN {"no_overlap"} ELSE {})
     \* the statement is unconditional: any listed marker the reference does not know
     \cup (IF \E p \in DOMAIN table : ~(table[p] \subseteq RG) THEN {"unknown_to_reference"} ELSE {})
@@ -53,6 +56,10 @@ RunErrors(R, table, QG, RG, minm) ==
 \* says "parents with a single child need no markers" and "a root without usable markers ends
 \* the run with an error"; either outcome is accepted there.
 MayFail(R, table, QG) == Root \notin ChoiceParents(R) /\ Own(table, Root) \cap QG = {}
+
+\* with a minimum of 0 a consulted non-root parent whose list misses the query is not topped up; the code refuses
+\* such a table ("No markers at parent node ... were present in query set"), the statement does not say: either
+MayFail0(R, table, QG, minm) == minm = 0 /\ \E p \in ChoiceParents(R) : GenesAt(R, table, QG, minm, p) = {}
 
 \* flattening: every list is merged into the root's
 FlattenTable(table) == [p \in {Root} |-> UNION {table[q] : q \in DOMAIN table}]
